@@ -51,3 +51,18 @@ cff.Concurrency(2),
 		cff.Task(func(k int) (int64, error) { return int64(k) * 2, nil }))
 	return
 }
+
+// Shortcut: the last task consumes the result of the first task both directly
+// and through the second one (an edge that is implied by a path).
+func Shortcut(ctx context.Context, a string) (out Label, err error) {
+	err = cff.Flow(ctx,
+		cff.Params(a),
+		cff.Results(&out),
+		cff.Task(func(x string) (int64, error) { return strconv.ParseInt(x, 10, 64) }),
+		cff.Task(func(v int64) float64 { return float64(v) / 2 }),
+		cff.Task(func(v int64, f float64) Label {
+			return Label(strconv.FormatInt(v, 10) + strconv.FormatFloat(f, 'f', 2, 64))
+		}),
+	)
+	return
+}
